@@ -608,11 +608,14 @@ impl ZiPatch {
                                     // reverse reading crc32
                                     file.seek(SeekFrom::Current(-4))?;
 
-                                    let mut data: Vec<u8> =
-                                        Vec::with_capacity(fop.file_size as usize);
+                                    // the size comes from the patch file, so don't reserve it up front
+                                    let mut data: Vec<u8> = Vec::new();
 
-                                    while data.len() < fop.file_size as usize {
-                                        data.append(&mut read_data_block_patch(&mut file).unwrap());
+                                    while (data.len() as u64) < fop.file_size {
+                                        data.append(
+                                            &mut read_data_block_patch(&mut file)
+                                                .ok_or(PatchError::ParseError)?,
+                                        );
                                     }
 
                                     // re-apply crc32
